@@ -90,9 +90,8 @@ pub fn run_check(replay: Option<Value>) -> i32 {
         c.keep_log = true;
         c.max_step = ms;
         c.first_step = fs.map(|h| h * dir * if opposite { -1.0 } else { 1.0 });
-        if m == Method::RK4 && c.first_step.is_none() && idx[3] == 3 {
-            return None; // 10^5 fixed steps: nothing new
-        }
+        // (RK4 without first_step derives its fixed step from the span and must still obey max_step:
+        // 1e-3*span gives a thousand steps)
         let desc = json!({"key": key, "point": describe(&dims, idx), "cfg": c.json(&p.name)});
         let mut out = CaseOut::default();
         macro_rules! viol {
